@@ -1,16 +1,25 @@
 #!/bin/bash
 # tools/applypatch.sh <patch> "<commit message>"  — apply a delivered patch to /repo as one commit,
-# after checking the tree builds and the full baseline suite passes (tag off).
-set -e
+# after checking the tree builds (tag on and off) and the full baseline suite passes (tag off).
+# Packages that fail are re-run alone up to 3 times: pkg/edit, pkg/daemon, e2e have timing-
+# sensitive TTY tests that flake when the machine is loaded.
 P=$(readlink -f "$1"); MSG="$2"
 export GOFLAGS=-mod=mod GOPROXY=off GOSUMDB=off GOTOOLCHAIN=local
 cd /repo
-git apply --check "$P"
+git apply --check "$P" || exit 1
 git apply "$P"
-go build ./... && go vet -tags verif ./pkg/... >/dev/null 2>&1 || true
-go build -tags verif ./... 
-if ! go test -vet=off -count=1 ./... > /tmp/applypatch-test.log 2>&1; then
-  echo "BASELINE TESTS FAIL with $P"; grep -E "^(FAIL|---)" /tmp/applypatch-test.log | head -20
-  git checkout -- . ; git clean -fdq; exit 1
-fi
+if ! go build ./... || ! go build -tags verif ./...; then echo "BUILD FAILS with $P"; git checkout -- .; git clean -fdq; exit 1; fi
+go test -vet=off -count=1 ./... > /tmp/applypatch-test.log 2>&1
+FAILED=$(grep -E "^FAIL\s+src.elv.sh" /tmp/applypatch-test.log | awk '{print $2}' | sort -u)
+for pkg in $FAILED; do
+  ok=0
+  for i in 1 2 3; do
+    if go test -vet=off -count=1 "$pkg" > /tmp/applypatch-retest.log 2>&1; then ok=1; break; fi
+  done
+  if [ $ok = 0 ]; then
+    echo "BASELINE TESTS FAIL (3 retries) in $pkg with $P"; grep -E "^(FAIL|---)" /tmp/applypatch-retest.log | head -20
+    git checkout -- . ; git clean -fdq; exit 1
+  fi
+  echo "note: $pkg failed in the loaded full run, passed when re-run alone"
+done
 git add -A && git commit -qm "$MSG" && git log --oneline | head -1
